@@ -11,9 +11,9 @@
 import json, os
 from vlib import Infra, read_ndjson, write_ndjson, pmap, NCPU
 
-REAL = {"x/p": "example.com/x/p", "y/p": "example.com/y/p", "x/q": "example.com/x/q", "x/o": "example.com/x/o", "fmt": "fmt"}
+REAL = {"x/v2": "example.com/x/v2", "x/p": "example.com/x/p", "y/p": "example.com/y/p", "x/q": "example.com/x/q", "x/o": "example.com/x/o", "fmt": "fmt"}
 ABS = {v: k for k, v in REAL.items()}
-BASE = {"x/p": "p", "y/p": "p", "x/q": "q", "x/o": "o", "fmt": "fmt"}
+BASE = {"x/v2": "v2", "x/p": "p", "y/p": "p", "x/q": "q", "x/o": "o", "fmt": "fmt"}
 
 CFG_MC = """SPECIFICATION Spec
 CONSTANTS
@@ -40,7 +40,7 @@ CHECK_DEADLOCK FALSE
 """
 CFG_TRACE = """SPECIFICATION TraceSpec
 CONSTANTS
-  PatchPaths = {"x/p", "y/p", "x/q"}
+  PatchPaths = {"x/p", "y/p", "x/q", "x/v2"}
   OtherPaths = {"x/o", "fmt"}
   MaxPatchImps = 3
   Mode = "edits"
